@@ -394,12 +394,12 @@ theorem C17_last_wins_lossy (c : Lossy.Copyright) (path : Str)
 /-! ## paragraph-list helpers -/
 
 theorem mem_filesParas {c : Doc} {p : Para} (h : p ∈ Spec.filesParas c) :
-    p ∈ c ∧ ∃ f, p.get kFiles = some f := by
+    p ∈ c.drop 1 ∧ ∃ f, p.get kFiles = some f := by
   simp only [Spec.filesParas, List.mem_filter, Para.containsKey, Option.isSome_iff_exists] at h
   exact h
 
 theorem mem_standalone {c : Doc} {p : Para} (h : p ∈ Spec.standalone c) :
-    p ∈ c ∧ p.get kFiles = none ∧ ∃ l, p.get kLicense = some l := by
+    p ∈ c.drop 1 ∧ p.get kFiles = none ∧ ∃ l, p.get kLicense = some l := by
   simp only [Spec.standalone, List.mem_filter, Para.containsKey, Bool.and_eq_true,
     Bool.not_eq_true', Option.isSome_eq_false_iff, Option.isNone_iff_eq_none,
     Option.isSome_iff_exists] at h
@@ -430,13 +430,13 @@ theorem filterO_mem {α} (f : α → Outcome Bool) (l r : List α) (h : filterO 
           simp only [Bool.false_eq_true, if_false] at hx
           exact List.mem_cons_of_mem _ (ih r' hr x hx)
 
-/-! ## the property's domain (`Spec.wellFormed` = shape ∧ header only ∧ licences named ∧ valid escapes) -/
+/-! ## the property's domain (`Spec.wellFormed` = shape ∧ licences named ∧ valid escapes; the
+    header paragraph may carry any fields besides `Format`, a `License` or `Files` field included) -/
 
 theorem wf_parts {c : Doc} (hwf : Spec.wellFormed c = true) :
-    Spec.lossyShape c = true ∧ Spec.headerOnly c = true ∧ Spec.licenceNamed c = true ∧
-      Spec.patternsValid c = true := by
+    Spec.lossyShape c = true ∧ Spec.licenceNamed c = true ∧ Spec.patternsValid c = true := by
   simp only [Spec.wellFormed, Bool.and_eq_true] at hwf
-  exact ⟨hwf.1.1.1, hwf.1.1.2, hwf.1.2, hwf.2⟩
+  exact ⟨hwf.1.1, hwf.1.2, hwf.2⟩
 
 theorem patternsValid_mem {c : Doc} (hv : Spec.patternsValid c = true) {fp : Para}
     (hfp : fp ∈ Spec.filesParas c) {f : Str} (hf : fp.get kFiles = some f) :
@@ -611,37 +611,47 @@ theorem licOfPara_eq {p : Para} {l : Lossy.LicenseParagraph}
     subst h
     simp [convL, hL]
 
-theorem filesParas_cons_some {p : Para} {rest : Doc} {f : Str} (h : p.get kFiles = some f) :
-    Spec.filesParas (p :: rest) = p :: Spec.filesParas rest ∧
-    Spec.standalone (p :: rest) = Spec.standalone rest := by
-  simp [Spec.filesParas, Spec.standalone, Para.containsKey, h]
+/-- the Files paragraphs among the paragraphs that follow the header -/
+def tailFiles (rest : List Para) : List Para := rest.filter (·.containsKey kFiles)
 
-theorem filesParas_cons_none {p : Para} {rest : Doc} (h : p.get kFiles = none) :
-    Spec.filesParas (p :: rest) = Spec.filesParas rest := by
-  simp [Spec.filesParas, Para.containsKey, h]
+/-- the stand-alone licence paragraphs among the paragraphs that follow the header -/
+def tailStandalone (rest : List Para) : List Para :=
+  rest.filter fun x => !x.containsKey kFiles && x.containsKey kLicense
 
-theorem standalone_cons_lic {p : Para} {rest : Doc} {l : Str} (h : p.get kFiles = none)
+/-- the header paragraph is set aside, whatever its fields -/
+theorem filesParas_cons (hd : Para) (rest : List Para) :
+    Spec.filesParas (hd :: rest) = tailFiles rest := rfl
+
+theorem standalone_cons (hd : Para) (rest : List Para) :
+    Spec.standalone (hd :: rest) = tailStandalone rest := rfl
+
+theorem tailFiles_cons_some {p : Para} {rest : List Para} {f : Str} (h : p.get kFiles = some f) :
+    tailFiles (p :: rest) = p :: tailFiles rest ∧
+    tailStandalone (p :: rest) = tailStandalone rest := by
+  simp [tailFiles, tailStandalone, Para.containsKey, h]
+
+theorem tailFiles_cons_none {p : Para} {rest : List Para} (h : p.get kFiles = none) :
+    tailFiles (p :: rest) = tailFiles rest := by
+  simp [tailFiles, Para.containsKey, h]
+
+theorem tailStandalone_cons_lic {p : Para} {rest : List Para} {l : Str} (h : p.get kFiles = none)
     (hl : p.get kLicense = some l) :
-    Spec.standalone (p :: rest) = p :: Spec.standalone rest := by
-  simp [Spec.standalone, Para.containsKey, h, hl]
-
-theorem standalone_cons_none {p : Para} {rest : Doc} (hl : p.get kLicense = none) :
-    Spec.standalone (p :: rest) = Spec.standalone rest := by
-  simp [Spec.standalone, Para.containsKey, hl]
+    tailStandalone (p :: rest) = p :: tailStandalone rest := by
+  simp [tailStandalone, Para.containsKey, h, hl]
 
 /-- the paragraph loop of the lossy reader, when it succeeds: Files paragraphs and stand-alone
     licence paragraphs, each in file order, converted one by one; every Files paragraph has a
     License field -/
 theorem classify_spec (rest : List Para) :
     ∀ r, Lossy.classify rest = .ok r →
-      r.1 = (Spec.filesParas rest).map convF ∧ r.2 = (Spec.standalone rest).map convL ∧
-      ∀ p ∈ Spec.filesParas rest, ∃ l, p.get kLicense = some l := by
+      r.1 = (tailFiles rest).map convF ∧ r.2 = (tailStandalone rest).map convL ∧
+      ∀ p ∈ tailFiles rest, ∃ l, p.get kLicense = some l := by
   induction rest with
   | nil =>
     intro r h
     simp only [Lossy.classify, Except.ok.injEq] at h
     subst h
-    exact ⟨rfl, rfl, by simp [Spec.filesParas]⟩
+    exact ⟨rfl, rfl, by simp [tailFiles]⟩
   | cons p rest ih =>
     intro r h
     unfold Lossy.classify at h
@@ -657,7 +667,7 @@ theorem classify_spec (rest : List Para) :
           simp only [hp, hc, Except.ok.injEq] at h
           subst h
           obtain ⟨h1, h2, h3⟩ := ih r' hc
-          obtain ⟨e1, e2⟩ := @filesParas_cons_some p rest fv hF
+          obtain ⟨e1, e2⟩ := @tailFiles_cons_some p rest fv hF
           obtain ⟨ef, hlic⟩ := filesOfPara_eq hp
           refine ⟨by simp [e1, h1, ef], by simp [e2, h2], ?_⟩
           intro q hq
@@ -680,9 +690,9 @@ theorem classify_spec (rest : List Para) :
             simp only [hp, hc, Except.ok.injEq] at h
             subst h
             obtain ⟨h1, h2, h3⟩ := ih r' hc
-            refine ⟨by simp [filesParas_cons_none hF, h1],
-              by simp [standalone_cons_lic hF hL, h2, licOfPara_eq hp], ?_⟩
-            rw [filesParas_cons_none hF]; exact h3
+            refine ⟨by simp [tailFiles_cons_none hF, h1],
+              by simp [tailStandalone_cons_lic hF hL, h2, licOfPara_eq hp], ?_⟩
+            rw [tailFiles_cons_none hF]; exact h3
 
 /-- the loop never reports "not machine readable" -/
 theorem classify_not_nmr (rest : List Para) : Lossy.classify rest ≠ .error .notMachineReadable := by
@@ -704,12 +714,14 @@ theorem classify_ok_iff (rest : List Para) :
     cases hF : p.get kFiles <;> cases hL : p.get kLicense <;> cases hC : p.get kCopyright <;>
       cases hc : Lossy.classify rest <;> simp [Spec.shapePara, hF, hL, hC]
 
-/-- what the lossy reader stores when it accepts a text -/
+/-- what the lossy reader stores when it accepts a text: the conversions of the Files paragraphs
+    and of the stand-alone licence paragraphs that follow the header — the header's own `Files` /
+    `License` fields, if any, are not looked at -/
 theorem lossy_fromStr_inv (read : Str → Option Doc) (s : Str) (c : Doc) (cr : Lossy.Copyright)
     (hr : read s = some c) (h : Lossy.fromStr read s = .ok cr) :
-    gate s = true ∧ ∃ hd rest, c = hd :: rest ∧
-      cr.files = (Spec.filesParas rest).map convF ∧ cr.licenses = (Spec.standalone rest).map convL ∧
-      ∀ p ∈ Spec.filesParas rest, ∃ l, p.get kLicense = some l := by
+    gate s = true ∧
+      cr.files = (Spec.filesParas c).map convF ∧ cr.licenses = (Spec.standalone c).map convL ∧
+      ∀ p ∈ Spec.filesParas c, ∃ l, p.get kLicense = some l := by
   unfold Lossy.fromStr at h
   cases hg : gate s with
   | false => simp [hg] at h
@@ -728,7 +740,7 @@ theorem lossy_fromStr_inv (read : Str → Option Doc) (s : Str) (c : Doc) (cr : 
           simp only [hh, hc, Except.ok.injEq] at h
           subst h
           obtain ⟨h1, h2, h3⟩ := classify_spec rest r hc
-          exact ⟨rfl, hd, rest, rfl, h1, h2, h3⟩
+          exact ⟨rfl, h1, h2, h3⟩
 
 /-- **which files the lossy reader accepts**: exactly the texts that pass the gate, parse, and
     have the shape "header with Format, then Files paragraphs (with License and Copyright) and
@@ -755,12 +767,6 @@ theorem C17_lossy_accepts_iff (read : Str → Option Doc) (s : Str) :
           cases hc : Lossy.classify rest with
           | error e => simp
           | ok r => simp
-
-theorem headerOnly_cons {hd : Para} {rest : Doc} (h : Spec.headerOnly (hd :: rest) = true) :
-    Spec.filesParas (hd :: rest) = Spec.filesParas rest ∧
-    Spec.standalone (hd :: rest) = Spec.standalone rest := by
-  simp only [Spec.headerOnly, Bool.and_eq_true, Option.isNone_iff_eq_none] at h
-  exact ⟨filesParas_cons_none h.1, standalone_cons_none h.2⟩
 
 /-- **lossy `find_files` against the lossless one.** When the lossy reader stores the
     conversions of the file's Files paragraphs, it finds the conversion of the very paragraph the
@@ -878,21 +884,19 @@ theorem C17_parse_error_alike (read : Str → Option Doc) (s : Str) (hg : gate s
     Lossless.fromStr read s = .error .parseError ∧ Lossy.fromStr read s = .error .parseError := by
   simp [Lossless.fromStr, Lossy.fromStr, hg, hr]
 
-/-- the core: once the lossy reader has accepted the text -/
+/-- the core: once the lossy reader has accepted the text. No condition on the header paragraph:
+    since b19e977 the lossless iterators skip it, as the lossy reader always did. -/
 theorem C17_lossless_eq_lossy_of_accepted (read : Str → Option Doc) (s : Str) (c : Doc)
     (cr : Lossy.Copyright) (path : Str)
     (hr : read s = some c) (hacc : Lossy.fromStr read s = .ok cr)
-    (hhdr : Spec.headerOnly c = true) (hname : Spec.licenceNamed c = true) :
+    (hname : Spec.licenceNamed c = true) :
     Lossless.fromStr read s = .ok c ∧
     Lossy.findFiles cr path = (Lossless.findFiles c path).map (·.map convF) ∧
     Lossy.findLicenseForFile cr path = Lossless.findLicenseForFile c path := by
-  obtain ⟨hg, hd, rest, rfl, hfiles, hlic, hhas⟩ := lossy_fromStr_inv read s c cr hr hacc
-  obtain ⟨e1, e2⟩ := headerOnly_cons hhdr
-  rw [← e1] at hfiles hhas
-  rw [← e2] at hlic
-  have hff := C17_lossy_find_files (hd :: rest) cr path hfiles
+  obtain ⟨hg, hfiles, hlic, hhas⟩ := lossy_fromStr_inv read s c cr hr hacc
+  have hff := C17_lossy_find_files c cr path hfiles
   refine ⟨by simp [Lossless.fromStr, hg, hr], hff, ?_⟩
-  cases hfind : Lossless.findFiles (hd :: rest) path with
+  cases hfind : Lossless.findFiles c path with
   | panic site =>
     rw [hfind] at hff
     simp [Lossy.findLicenseForFile, Lossless.findLicenseForFile, hff, hfind, Outcome.map]
@@ -905,43 +909,43 @@ theorem C17_lossless_eq_lossy_of_accepted (read : Str → Option Doc) (s : Str) 
     · rw [hff, hfind]; rfl
 
 /-- **C17, "the lossless and lossy readers give the same answers".** For every text that passes
-    the gate and parses, every path, under three named conditions on the paragraph list —
+    the gate and parses, every path, under two named conditions on the paragraph list —
       * `hshape`  (`Spec.lossyShape`): header paragraph with Format first, every other paragraph a
                   Files paragraph with License and Copyright or a stand-alone licence paragraph
                   — otherwise the lossy reader refuses the file (`C17_needs_shape`);
-      * `hhdr`    (`Spec.headerOnly`): the first paragraph has neither Files nor License
-                  — otherwise the lossless reader also looks the header up (`C17_needs_headerOnly`);
       * `hname`   (`Spec.licenceNamed`): no stand-alone licence field begins with an empty line
                   (`C17_needs_licenceNamed`; cannot arise from the deb822 reader) —
     both readers accept the file, the lossy reader finds the conversion of the very Files
     paragraph the lossless reader finds, and both return the same licence — panics on invalid
     escapes and the newline behaviour of `.` included, so neither valid escapes nor a newline-free
-    path is assumed. -/
+    path is assumed. The header paragraph may carry any further fields: a `License` field (the
+    licence of the package as a whole, DEP-5) or even a `Files` field is looked at by neither
+    reader (before fix b19e977 this needed "the first paragraph has neither Files nor License";
+    `C17_fixed_header_license`, `C17_header_set_aside`). -/
 theorem C17_lossless_eq_lossy (read : Str → Option Doc) (s : Str) (c : Doc) (path : Str)
     (hg : gate s = true) (hr : read s = some c)
-    (hshape : Spec.lossyShape c = true) (hhdr : Spec.headerOnly c = true)
-    (hname : Spec.licenceNamed c = true) :
+    (hshape : Spec.lossyShape c = true) (hname : Spec.licenceNamed c = true) :
     ∃ cr, Lossy.fromStr read s = .ok cr ∧ Lossless.fromStr read s = .ok c ∧
       Lossy.findFiles cr path = (Lossless.findFiles c path).map (·.map convF) ∧
       Lossy.findLicenseForFile cr path = Lossless.findLicenseForFile c path := by
   obtain ⟨cr, hacc⟩ := (C17_lossy_accepts_iff read s).2 ⟨hg, c, hr, hshape⟩
-  exact ⟨cr, hacc, C17_lossless_eq_lossy_of_accepted read s c cr path hr hacc hhdr hname⟩
+  exact ⟨cr, hacc, C17_lossless_eq_lossy_of_accepted read s c cr path hr hacc hname⟩
 
 /-- **C17, licence (lossy view — the crate's default `Copyright`).** -/
 theorem C17_license_lossy (read : Str → Option Doc) (s : Str) (c : Doc) (cr : Lossy.Copyright)
     (path : Str) (fp : Para)
     (hr : read s = some c) (hacc : Lossy.fromStr read s = .ok cr)
-    (hhdr : Spec.headerOnly c = true) (hname : Spec.licenceNamed c = true)
+    (hname : Spec.licenceNamed c = true)
     (hfound : Lossless.findFiles c path = .ok (some fp)) :
     Lossy.findFiles cr path = .ok (some (convF fp)) ∧
     Lossy.findLicenseForFile cr path = .ok (Spec.licenseFor c fp) := by
-  obtain ⟨_, hff, hl⟩ := C17_lossless_eq_lossy_of_accepted read s c cr path hr hacc hhdr hname
+  obtain ⟨_, hff, hl⟩ := C17_lossless_eq_lossy_of_accepted read s c cr path hr hacc hname
   exact ⟨by rw [hff, hfound]; rfl, by rw [hl, C17_license c path fp hfound]⟩
 
 /-- **everything against the property's own reading.** On a well-formed file (`Spec.wellFormed`:
-    the three conditions above and valid escapes) both readers accept the text, both find
-    `Spec.findFiles` — the last Files paragraph one of whose patterns matches — and both return
-    `Spec.findLicenseForFile`. -/
+    the two conditions above and valid escapes; header with or without `License` / `Files`
+    fields) both readers accept the text, both find `Spec.findFiles` — the last Files paragraph
+    after the header one of whose patterns matches — and both return `Spec.findLicenseForFile`. -/
 theorem C17_both_spec (read : Str → Option Doc) (s : Str) (c : Doc) (path : Str)
     (hg : gate s = true) (hr : read s = some c) (hwf : Spec.wellFormed c = true) :
     Lossless.fromStr read s = .ok c ∧
@@ -950,13 +954,75 @@ theorem C17_both_spec (read : Str → Option Doc) (s : Str) (c : Doc) (path : St
     ∃ cr, Lossy.fromStr read s = .ok cr ∧
       Lossy.findFiles cr path = .ok ((Spec.findFiles c path).map convF) ∧
       Lossy.findLicenseForFile cr path = .ok (Spec.findLicenseForFile c path) := by
-  obtain ⟨hshape, hhdr, hname, hv⟩ := wf_parts hwf
-  obtain ⟨cr, hfrom, hll, hff, hlic⟩ := C17_lossless_eq_lossy read s c path hg hr hshape hhdr hname
+  obtain ⟨hshape, hname, hv⟩ := wf_parts hwf
+  obtain ⟨cr, hfrom, hll, hff, hlic⟩ := C17_lossless_eq_lossy read s c path hg hr hshape hname
   have hspec := C17_find_files_spec c path hv
   have hl := lossless_license_of_found c path _ hspec
   refine ⟨hll, hspec, hl, cr, hfrom, ?_, ?_⟩
   · rw [hff, hspec]; rfl
   · rw [hlic, hl]; rfl
+
+/-! ## the header paragraph is set aside (fix b19e977) -/
+
+/-- **C17, the header never contributes (lossless view).** Whatever the first paragraph is —
+    with or without `Files`, `License`, `Copyright` fields — every lossless lookup over
+    `h :: rest` gives the answer it gives over `h' :: rest` for any other first paragraph `h'`:
+    the Files paragraphs enumerated, the paragraph found, the licence found by name, the licence
+    of a file, and the observable answer. No hypothesis (panics included). -/
+theorem C17_header_set_aside (h h' : Para) (rest : List Para) (path name : Str) :
+    Lossless.iterFiles (h :: rest) = Lossless.iterFiles (h' :: rest) ∧
+    Lossless.iterLicenses (h :: rest) = Lossless.iterLicenses (h' :: rest) ∧
+    Lossless.findFiles (h :: rest) path = Lossless.findFiles (h' :: rest) path ∧
+    Lossless.findLicenseByName (h :: rest) name = Lossless.findLicenseByName (h' :: rest) name ∧
+    Lossless.findLicenseForFile (h :: rest) path = Lossless.findLicenseForFile (h' :: rest) path ∧
+    Lossless.answer (h :: rest) path = Lossless.answer (h' :: rest) path ∧
+    Spec.answer (h :: rest) path = Spec.answer (h' :: rest) path :=
+  ⟨rfl, rfl, rfl, rfl, rfl, rfl, rfl⟩
+
+/-- the paragraphs the lossless lookups run over are exactly those after the first one, whatever
+    the first one holds (so a header with a `License` field is no stand-alone licence paragraph,
+    and one with a `Files` field is no Files paragraph) -/
+theorem C17_header_not_enumerated (h : Para) (rest : List Para) :
+    Lossless.iterFiles (h :: rest) = tailFiles rest ∧
+    Lossless.iterLicenses (h :: rest) = tailStandalone rest ∧
+    Lossless.iterFiles [h] = [] ∧ Lossless.iterLicenses [h] = [] :=
+  ⟨rfl, rfl, rfl, rfl⟩
+
+/-- **the same for the lossy view.** The lossy reader takes from the first paragraph only the
+    header fields (`Format` required; `Files-Excluded`, `Source`, `Upstream-Contact`); two files
+    that differ in the first paragraph only and are both accepted store the same Files and licence
+    paragraphs and answer every lookup alike. Acceptance itself depends on the first paragraph
+    only through "has a `Format` field" (`C17_lossy_accepts_iff`, `Spec.lossyShape`). -/
+theorem C17_header_set_aside_lossy (read read' : Str → Option Doc) (s s' : Str) (h h' : Para)
+    (rest : List Para) (cr cr' : Lossy.Copyright) (path : Str)
+    (hr : read s = some (h :: rest)) (hr' : read' s' = some (h' :: rest))
+    (hacc : Lossy.fromStr read s = .ok cr) (hacc' : Lossy.fromStr read' s' = .ok cr') :
+    cr.files = cr'.files ∧ cr.licenses = cr'.licenses ∧
+    Lossy.findFiles cr path = Lossy.findFiles cr' path ∧
+    Lossy.findLicenseForFile cr path = Lossy.findLicenseForFile cr' path ∧
+    Lossy.answer cr path = Lossy.answer cr' path := by
+  obtain ⟨_, hf, hl, _⟩ := lossy_fromStr_inv read s _ cr hr hacc
+  obtain ⟨_, hf', hl', _⟩ := lossy_fromStr_inv read' s' _ cr' hr' hacc'
+  have e1 : cr.files = cr'.files := by rw [hf, hf']; rfl
+  have e2 : cr.licenses = cr'.licenses := by rw [hl, hl']; rfl
+  have e3 : Lossy.findFiles cr path = Lossy.findFiles cr' path := by
+    simp only [Lossy.findFiles, e1]
+  have e4 : Lossy.findLicenseForFile cr path = Lossy.findLicenseForFile cr' path := by
+    simp only [Lossy.findLicenseForFile, Lossy.findLicenseByName, e3, e2]
+  refine ⟨e1, e2, e3, e4, ?_⟩
+  simp only [Lossy.answer, e1, e3, e4]
+
+/-- a `License` or `Files` field in the header changes nothing to the lossy reader's verdict: the
+    file is accepted iff it is accepted with the bare header `Format: …` -/
+theorem C17_header_fields_accept (h : Para) (f : Str) (rest : List Para)
+    (hf : h.get kFormat = some f) :
+    Spec.lossyShape (h :: rest) = Spec.lossyShape ([(kFormat, f)] :: rest) ∧
+    Spec.licenceNamed (h :: rest) = Spec.licenceNamed ([(kFormat, f)] :: rest) ∧
+    Spec.patternsValid (h :: rest) = Spec.patternsValid ([(kFormat, f)] :: rest) ∧
+    Spec.wellFormed (h :: rest) = Spec.wellFormed ([(kFormat, f)] :: rest) := by
+  have e : Spec.lossyShape (h :: rest) = Spec.lossyShape ([(kFormat, f)] :: rest) := by
+    simp [Spec.lossyShape, hf, Para.get]
+  exact ⟨e, rfl, rfl, by simp only [Spec.wellFormed, e]; rfl⟩
 
 /-! ## witnesses (`decide +kernel` on the model; the same inputs are run against the real crate on
     every check — corpus/C17/witness.req) -/
@@ -976,34 +1042,19 @@ def lossyAnswer (c : Doc) (s path : Str) : Option Answer :=
 
 /-! ### each named hypothesis of `C17_lossless_eq_lossy` is needed -/
 
-/-- **`hshape` cannot be dropped**: a Files paragraph without Copyright (header only, licences
-    named) — the lossless reader answers, the lossy reader refuses the file; likewise a paragraph
-    that is neither. -/
+/-- **`hshape` cannot be dropped**: a Files paragraph without Copyright (licences named) — the
+    lossless reader answers, the lossy reader refuses the file; likewise a paragraph that is
+    neither. -/
 theorem C17_needs_shape :
     (let c : Doc := [hdr, [(kFiles, "*".toList), (kLicense, "MIT".toList)]]
-     Spec.lossyShape c = false ∧ Spec.headerOnly c = true ∧ Spec.licenceNamed c = true ∧
+     Spec.lossyShape c = false ∧ Spec.licenceNamed c = true ∧
      Lossless.answer c "a".toList = ⟨.ok (some 0), .ok none⟩ ∧
      lossyAnswer c wText "a".toList = none) ∧
     (let c : Doc := [hdr, [(kComment, "x".toList)]]
-     Spec.lossyShape c = false ∧ Spec.headerOnly c = true ∧ Spec.licenceNamed c = true ∧
+     Spec.lossyShape c = false ∧ Spec.licenceNamed c = true ∧
      Lossless.answer c "a".toList = ⟨.ok none, .ok none⟩ ∧
      Lossy.fromStr (fun _ => some c) wText
        = .error (.msg "Paragraph is neither License nor Files".toList)) := by
-  decide +kernel
-
-/-- **`hhdr` cannot be dropped**: a first paragraph that also has a `Files` field is a Files
-    paragraph for the lossless view and only a header for the lossy view; a first paragraph with
-    `License` + text is a stand-alone licence paragraph for the lossless view only. -/
-theorem C17_needs_headerOnly :
-    (let c : Doc := [[(kFormat, "x".toList), (kFiles, "*".toList), (kCopyright, "c".toList),
-                      (kLicense, "MIT".toList)]]
-     Spec.lossyShape c = true ∧ Spec.headerOnly c = false ∧ Spec.licenceNamed c = true ∧
-     Lossless.answer c "a".toList = ⟨.ok (some 0), .ok none⟩ ∧
-     lossyAnswer c wText "a".toList = some ⟨.ok none, .ok none⟩) ∧
-    (let c : Doc := [[(kFormat, "x".toList), (kLicense, "MIT\ntext".toList)], fpara "*" "MIT"]
-     Spec.lossyShape c = true ∧ Spec.headerOnly c = false ∧ Spec.licenceNamed c = true ∧
-     Lossless.answer c "a".toList = ⟨.ok (some 0), .ok (some (.named "MIT".toList "text".toList))⟩ ∧
-     lossyAnswer c wText "a".toList = some ⟨.ok (some 0), .ok none⟩) := by
   decide +kernel
 
 /-- **`hname` cannot be dropped** (on abstract paragraph lists): a stand-alone licence field that
@@ -1011,12 +1062,12 @@ theorem C17_needs_headerOnly :
     view; an empty `License:` in a Files paragraph looks it up. -/
 theorem C17_needs_licenceNamed :
     let c : Doc := [hdr, fpara "*" "", lpara "\ntext"]
-    Spec.lossyShape c = true ∧ Spec.headerOnly c = true ∧ Spec.licenceNamed c = false ∧
+    Spec.lossyShape c = true ∧ Spec.licenceNamed c = false ∧
     Lossless.answer c "a".toList = ⟨.ok (some 0), .ok (some (.text "text".toList))⟩ ∧
     lossyAnswer c wText "a".toList = some ⟨.ok (some 0), .ok none⟩ := by
   decide +kernel
 
-/-! ### the two repaired findings, as regression statements -/
+/-! ### the three repaired findings, as regression statements -/
 
 /-- `Files: a/* b/*` -/
 def w1 : Doc := [hdr, fpara "a/* b/*" "MIT"]
@@ -1053,6 +1104,50 @@ theorem C17_fixed_F2 :
     lossyAnswer w2b wText "a".toList = some ⟨.ok (some 0), .ok (some (.name "MIT".toList))⟩ := by
   decide +kernel
 
+/-- header with a `License` field and text (the licence of the package as a whole) -/
+def hdrLic (lic : String) : Para := [(kFormat, "x".toList), (kLicense, lic.toList)]
+
+/-- the paragraph list of
+    `Format: x⏎License: GPL-2⏎ Header text.⏎⏎Files: *⏎Copyright: c⏎License: GPL-2⏎⏎License: GPL-2⏎ Real text⏎` -/
+def w3 : Doc := [hdrLic "GPL-2
+Header text.", fpara "*" "GPL-2", lpara "GPL-2
+Real text"]
+/-- header licence with a name only, and no stand-alone paragraph of that name -/
+def w3b : Doc := [hdrLic "GPL-2", fpara "*" "GPL-2"]
+/-- header that also has `Files`, `Copyright` (legal for the deb822 reader, not DEP-5) -/
+def w3c : Doc :=
+  [[(kFormat, "x".toList), (kFiles, "*".toList), (kCopyright, "c".toList), (kLicense, "MIT
+hdr".toList)],
+   fpara "a/*" "MIT", lpara "MIT
+real"]
+
+/-- **F-C17-3 (fixed in b19e977).** A header paragraph with a `License` field: the lossless reader,
+    the lossy reader and the property's reading all return the *stand-alone* paragraph's licence
+    (`Real text`), not the header's (`Header text.`); with no stand-alone paragraph of that name
+    there is no licence; a header that also carries a `Files` field is not a Files paragraph (the
+    path `q` that only its `*` would match is not found, and the index of `a/*` is 0). Before the
+    fix the lossless answers were `Named GPL-2 "Header text."`, `Name GPL-2`, and paragraph 0 for
+    `q`. -/
+theorem C17_fixed_header_license :
+    Spec.wellFormed w3 = true ∧
+    Spec.answer w3 "a".toList = ⟨.ok (some 0), .ok (some (.named "GPL-2".toList "Real text".toList))⟩ ∧
+    Lossless.answer w3 "a".toList = Spec.answer w3 "a".toList ∧
+    lossyAnswer w3 wText "a".toList = some (Spec.answer w3 "a".toList) ∧
+    Lossless.findLicenseByName w3 "GPL-2".toList
+      = .ok (some (.named "GPL-2".toList "Real text".toList)) ∧
+    Spec.wellFormed w3b = true ∧
+    Spec.answer w3b "a".toList = ⟨.ok (some 0), .ok none⟩ ∧
+    Lossless.answer w3b "a".toList = ⟨.ok (some 0), .ok none⟩ ∧
+    lossyAnswer w3b wText "a".toList = some ⟨.ok (some 0), .ok none⟩ ∧
+    Spec.wellFormed w3c = true ∧
+    Spec.answer w3c "q".toList = ⟨.ok none, .ok none⟩ ∧
+    Lossless.answer w3c "q".toList = ⟨.ok none, .ok none⟩ ∧
+    lossyAnswer w3c wText "q".toList = some ⟨.ok none, .ok none⟩ ∧
+    Spec.answer w3c "a/q".toList = ⟨.ok (some 0), .ok (some (.named "MIT".toList "real".toList))⟩ ∧
+    Lossless.answer w3c "a/q".toList = Spec.answer w3c "a/q".toList ∧
+    lossyAnswer w3c wText "a/q".toList = some (Spec.answer w3c "a/q".toList) := by
+  decide +kernel
+
 /-! ### the side conditions of the glob clause -/
 
 /-- **the `\n` side condition of `C17_glob` is needed**: `.` of the regex crate does not match a
@@ -1080,10 +1175,11 @@ example :
 
 /-! ## non-vacuity: the hypotheses of every theorem above are satisfiable, and the theorems fire -/
 
-/-- header; `Files: *` (MIT); `License: MIT` + text; `Files: a/*⏎ b/* c/d` (GPL + inline text);
+/-- header *with a `License: MIT` field and its own text* (the licence of the package as a whole);
+    `Files: *` (MIT); `License: MIT` + text; `Files: a/*⏎ b/* c/d` (GPL + inline text);
     `Files: a/b` (MIT); a second `License: MIT` + other text; `License: BSD` (name only) -/
 def exDoc : Doc :=
-  [hdr, fpara "*" "MIT", lpara "MIT\ntext", fpara "a/*\nb/* c/d" "GPL\ninline", fpara "a/b" "MIT",
+  [hdrLic "MIT\nheader text", fpara "*" "MIT", lpara "MIT\ntext", fpara "a/*\nb/* c/d" "GPL\ninline", fpara "a/b" "MIT",
    lpara "MIT\nsecond", lpara "BSD"]
 
 def exCr : Lossy.Copyright where
@@ -1093,7 +1189,6 @@ def exCr : Lossy.Copyright where
 
 theorem exDoc_wf : Spec.wellFormed exDoc = true := by decide +kernel
 theorem exDoc_shape : Spec.lossyShape exDoc = true := by decide +kernel
-theorem exDoc_hdr : Spec.headerOnly exDoc = true := by decide +kernel
 theorem exDoc_named : Spec.licenceNamed exDoc = true := by decide +kernel
 theorem exDoc_valid : Spec.patternsValid exDoc = true := by decide +kernel
 theorem exDoc_lossy : Lossy.fromStr (fun _ => some exDoc) wText = .ok exCr := by decide +kernel
@@ -1158,7 +1253,7 @@ example : Lossless.findLicenseForFile exDoc "c/d".toList
 example : Lossy.findLicenseForFile exCr "a/b".toList
     = .ok (some (.named "MIT".toList "text".toList)) := by
   rw [(C17_license_lossy (fun _ => some exDoc) wText exDoc exCr "a/b".toList (fpara "a/b" "MIT")
-    rfl exDoc_lossy exDoc_hdr exDoc_named (by decide +kernel)).2]
+    rfl exDoc_lossy exDoc_named (by decide +kernel)).2]
   decide +kernel
 
 -- C17_lossy_accepts_iff
@@ -1174,17 +1269,17 @@ example : gate "\nFormat: x\n".toList = false ∧ gate "format: x".toList = fals
     gate "Format".toList = false ∧ gate "# c\nFormat: x".toList = false ∧
     gate "Format:".toList = true ∧ gate "Format:x".toList = true := by decide +kernel
 
--- C17_lossless_eq_lossy: the three named hypotheses hold for `exDoc`
+-- C17_lossless_eq_lossy: the two named hypotheses hold for `exDoc` (whose header has a License field)
 example : ∃ cr, Lossy.fromStr (fun _ => some exDoc) wText = .ok cr ∧
     Lossless.fromStr (fun _ => some exDoc) wText = .ok exDoc ∧
     Lossy.findFiles cr "a/b".toList = (Lossless.findFiles exDoc "a/b".toList).map (·.map convF) ∧
     Lossy.findLicenseForFile cr "a/b".toList = Lossless.findLicenseForFile exDoc "a/b".toList :=
-  C17_lossless_eq_lossy _ wText exDoc _ (by decide +kernel) rfl exDoc_shape exDoc_hdr exDoc_named
+  C17_lossless_eq_lossy _ wText exDoc _ (by decide +kernel) rfl exDoc_shape exDoc_named
 
 -- C17_lossless_eq_lossy_of_accepted
 example : Lossy.findLicenseForFile exCr "q".toList = Lossless.findLicenseForFile exDoc "q".toList :=
   (C17_lossless_eq_lossy_of_accepted (fun _ => some exDoc) wText exDoc exCr _ rfl exDoc_lossy
-    exDoc_hdr exDoc_named).2.2
+    exDoc_named).2.2
 
 -- C17_both_spec
 example : Lossless.findLicenseForFile exDoc "a/b".toList
@@ -1192,5 +1287,23 @@ example : Lossless.findLicenseForFile exDoc "a/b".toList
   rw [(C17_both_spec (fun _ => some exDoc) wText exDoc "a/b".toList (by decide +kernel) rfl
     exDoc_wf).2.2.1]
   decide +kernel
+
+-- C17_header_set_aside_lossy: `exDoc` and the same file with a bare header are both accepted
+-- (the hypotheses hold) and answer alike
+def exDocBare : Doc := hdr :: exDoc.drop 1
+theorem exDocBare_lossy : Lossy.fromStr (fun _ => some exDocBare) wText = .ok exCr := by
+  decide +kernel
+example : Lossy.answer exCr "a/b".toList = Lossy.answer exCr "a/b".toList :=
+  (C17_header_set_aside_lossy (fun _ => some exDoc) (fun _ => some exDocBare) wText wText
+    (hdrLic "MIT\nheader text") hdr (exDoc.drop 1) exCr exCr _ rfl rfl exDoc_lossy exDocBare_lossy).2.2.2.2
+
+-- C17_header_set_aside (no hypotheses): the header's `License: MIT` + text is not the answer
+example : Lossless.findLicenseForFile exDoc "a/b".toList
+    = Lossless.findLicenseForFile exDocBare "a/b".toList :=
+  (C17_header_set_aside _ _ _ _ []).2.2.2.2.1
+
+-- C17_header_fields_accept: hypothesis holds for the header of `exDoc`
+example : Spec.wellFormed exDoc = Spec.wellFormed exDocBare :=
+  (C17_header_fields_accept (hdrLic "MIT\nheader text") "x".toList (exDoc.drop 1) rfl).2.2.2
 
 end Deb822Verif.Props.C17
